@@ -131,6 +131,11 @@ def rules(ctx):
                       "from that copy", floor=3)
     ctx.rule('R14.8', "counters are monotone; each label taken is followed by its increment", floor=2)
     ctx.rule('R14.9', "reduction ancilla base bounds every mapped label", floor=1)
+    ctx.rule('R14.10', "a field of model objects that is not one of the frozen bookkeeping fields and is written together "
+                       "with the terms / a bookkeeping field is written by every other mutator of that state", floor=1)
+    derived_fields(ctx, 'R14.10')
+    from .C02 import copy_ctor_counter
+    copy_ctor_counter(ctx, 'R14.8')
 
     model_classes = {c.name for c in P.subclasses_of('DictArithmetic')}
 
@@ -393,11 +398,114 @@ def refresh_order(ctx, rid):
         okr = any(c.args and src(c.args[-1]) == cname and isinstance(c.func, ast.Attribute) and is_name(c.func.value, selfn_)
                   for _, c in reinits) and \
             all(g.dominates([x for x in clears], n) for n, _ in reinits)
+    if okr:
+        from ..cfg import ENTRY
+        every = g.must_pass_to_exit(ENTRY, {n for n, _ in reinits})
+        ctx.inst(rid, rf, 'def refresh (every path rebuilds)', every,
+                 "every path through refresh re-initialises the caches" if every else
+                 "a path through refresh returns without rebuilding the caches: after that call degree / variables / "
+                 "mapping may still describe removed terms (refresh is the one operation documented to make them exact)")
     ctx.inst(rid, rf, reinits[0][0] if reinits else '__init__', okr,
              "re-initialised from the snapshot after the clear" if okr else
              "re-initialisation is not `self.__init__(snapshot)` after the clear (a fixed class's __init__ skips the "
              "other parents' caches, e.g. the label mapping)")
 
+
+
+KNOWN_FIELDS = {'_mapping', '_reverse_mapping', '_next_label', '_variables', '_degree', '_num_binary_variables',
+                '_constraints', '_ancilla', '_name', 'name'}
+DICT_MUTATORS = ('__setitem__', '__delitem__', 'pop', 'popitem', 'clear', 'update', 'setdefault')
+
+
+def derived_fields(ctx, rid):
+    """A field of a model object that today's tree does not have, and that some function writes together with the
+    terms (inside a dict mutator) or together with a bookkeeping field, is derived state: every other way the terms /
+    that field change on a live object must write it too, otherwise it goes stale.  (The frozen bookkeeping fields are
+    exempt: they are documented supersets until refresh().)"""
+    P, R = ctx.prog, ctx.res
+    hier = set()
+    concrete = P.subclasses_of('DictArithmetic')
+    for c in concrete:
+        for x in c.mro:
+            hier.add(x.name if hasattr(x, 'name') else x)
+    funcs = [fn for fn in P.all_funcs() if fn.cls is not None and fn.cls.name in hier and fn.outer is None]
+    new = {}
+    for fn in funcs:
+        selfn = R.self_name(fn)
+        for n in ast.walk(fn.node):
+            if isinstance(n, ast.Attribute) and isinstance(n.ctx, (ast.Store, ast.Del)) and is_name(n.value, selfn) \
+                    and n.attr not in KNOWN_FIELDS and not (n.attr.startswith('__') and n.attr.endswith('__')):
+                new.setdefault(n.attr, [])
+                if fn not in new[n.attr]:
+                    new[n.attr].append(fn)
+    ctx.inst(rid, ('qubovert', ''), 'fields of model objects', True,
+             "fields written on model objects: the %d frozen ones%s" % (len(KNOWN_FIELDS), (' + new %s' % sorted(new)) if new else ''),
+             nontrivial=False)
+
+    def writes(fn, F, recv):
+        if fn in new[F]:
+            return True
+        try:
+            reach = R.reachable_funcs(fn, recv)
+        except Exception:
+            return False
+        quals = {w.qual for w in new[F]}
+        return any(q in quals for (q, r) in reach)
+
+    for F, ws in sorted(new.items()):
+        non_init = [fn for fn in ws if fn.name != '__init__']
+        deps = set()
+        for fn in non_init:
+            selfn = R.self_name(fn)
+            if fn.name in DICT_MUTATORS or fn.name in ('__imul__',):
+                deps.add('terms')
+            for node, obj, f, kind, detail in field_writes(fn.node, KNOWN_FIELDS - {'name', '_name'}):
+                if obj == selfn:
+                    deps.add(f)
+        if not deps:
+            continue
+        wcls = {fn.cls.name for fn in ws}
+        for dep in sorted(deps):
+            if dep == 'terms':
+                for K in concrete:
+                    mro = [x.name if hasattr(x, 'name') else x for x in K.mro]
+                    if not (wcls & set(mro)):
+                        continue
+                    for m in DICT_MUTATORS:
+                        f = P.lookup_method(K.name, m)
+                        ok = isinstance(f, FuncInfo) and writes(f, F, K.name)
+                        ctx.inst(rid, (K.module.relpath, K.name), '%s kept by %s.%s' % (F, K.name, m), ok,
+                                 "%s maintains %s" % (getattr(f, 'qual', f), F) if ok else
+                                 "the new field `%s` is written together with the terms (%s) but %s.%s resolves to %s, which does "
+                                 "not write it: after that operation `%s` describes terms that are no longer there"
+                                 % (F, ', '.join(sorted(w.qual for w in non_init))[:80], K.name, m,
+                                    f.qual if isinstance(f, FuncInfo) else 'the inherited dict method', F))
+                # direct uses of the parent's primitive bypass the overrides
+                for g in funcs:
+                    if g.name in DICT_MUTATORS or g.name == '__init__':
+                        continue
+                    for c in calls_in(g.node):
+                        if isinstance(c.func, ast.Attribute) and c.func.attr in DICT_MUTATORS and (
+                                (isinstance(c.func.value, ast.Call) and is_name(c.func.value.func, 'super')) or
+                                is_name(c.func.value, 'dict')):
+                            ok = writes(g, F, g.cls.name)
+                            ctx.inst(rid, g, c, ok,
+                                     "%s also writes %s" % (g.qual, F) if ok else
+                                     "%s changes the terms through `%s` without writing the new derived field `%s`"
+                                     % (g.qual, src(c)[:40], F))
+            else:
+                for g in funcs:
+                    if g.name == '__init__':
+                        continue
+                    selfn = R.self_name(g)
+                    hit = [w for w in field_writes(g.node, {dep}) if w[1] == selfn]
+                    if not hit:
+                        continue
+                    ok = writes(g, F, g.cls.name)
+                    ctx.inst(rid, g, hit[0][0], ok,
+                             "%s writes %s together with %s" % (g.qual, F, dep) if ok else
+                             "the new field `%s` is written together with `%s` (%s) but %s changes `%s` without writing it: "
+                             "`%s` goes stale" % (F, dep, ', '.join(sorted(w.qual for w in non_init))[:80], g.qual, dep, F))
 
 
 def registration_parity(ctx, rid):
